@@ -25,7 +25,9 @@ func (s *Store) deleteModule(m *ModuleInstance) error {
 	m.prev = nil
 	m.next = nil
 
-	if m.ModuleName != "" {
+	// Only the module that owns the name releases it: a module whose registration failed (e.g. a
+	// duplicate name) must not unregister the live owner.
+	if m.ModuleName != "" && s.nameToModule[m.ModuleName] == m {
 		delete(s.nameToModule, m.ModuleName)
 
 		// Shrink the map if it's allocated more than twice the size of the list
